@@ -394,7 +394,7 @@ def _strategies():
         return st.sampled_from([m.name for m in e if m.name not in exclude])
 
     u8, u16, u24, u32 = st.integers(0, 255), st.integers(0, 0xFFFF), st.integers(0, 2**24 - 1), st.integers(0, 2**32 - 1)
-    rid32 = st.one_of(u24, u32)
+    rid32 = st.one_of(u24, st.integers(2**24, 2**32 - 1), st.sampled_from([0, 1, 2**24 - 1, 2**24, 2**32 - 1]))
     hexb = lambda lo, hi: st.binary(min_size=lo, max_size=hi).map(bytes.hex)
     ip = st.fixed_dictionaries({"subnet": st.one_of(st.just(10), u8), "id": u24})
     S = {}
@@ -492,6 +492,17 @@ def _strategies():
 
     hrnp_ctl = st.fixed_dictionaries({"version": st.integers(0, 4), "block": u8, "src": u8, "dst": u8, "pn": u16,
                                       "opcode": st.sampled_from([k for k in ref.HRNP_OPCODES if k != "DATA"])})
+
+    def double_carry(args):
+        """boundary-directed: choose the packet number so that the ones-complement sum needs a second end-around carry
+        (sum = c*65536 + (65536 - c .. 65535)); computed with the reference only.  Falls back to the drawn packet number."""
+        h, pick = args
+        s0 = (0x7E00 | h["version"]) + ((h["block"] << 8) | ref.HRNP_OPCODES[h["opcode"]]) + ((h["src"] << 8) | h["dst"]) + 12
+        targets = [(c << 16) + 0xFFFF - k - s0 for c in range(1, 5) for k in range(c)]
+        targets = [t for t in targets if 0 <= t <= 0xFFFF]
+        return dict(h, pn=targets[pick % len(targets)]) if targets else h
+
+    hrnp_ctl = st.one_of(hrnp_ctl, hrnp_ctl, st.tuples(hrnp_ctl, st.integers(0, 9)).map(double_carry))
     transport = st.one_of(
         st.fixed_dictionaries({"kind": st.just("hrnp"), "hrnp": hrnp_ctl}),
         st.fixed_dictionaries({"kind": st.just("hstrp"), "hstrp": hstrp}),
@@ -541,7 +552,11 @@ def record_pdu(sub):
 
 def record_transport(case, t: Tally):
     if case["kind"] == "hrnp":
-        t.case("transport", key=case, nontrivial=True, cls="hrnp." + case["hrnp"]["opcode"])
+        h = case["hrnp"]
+        t.case("transport", key=case, nontrivial=True, cls="hrnp." + h["opcode"])
+        s = (0x7E00 | h["version"]) + ((h["block"] << 8) | ref.HRNP_OPCODES[h["opcode"]]) + ((h["src"] << 8) | h["dst"]) + h["pn"] + 12
+        if (s & 0xFFFF) + (s >> 16) > 0xFFFF:
+            t.cls("transport", "hrnp.checksum_needs_second_carry")
     else:
         env = case["hstrp"]
         t.case("transport", key=case, nontrivial=bool(env["options"]) or any(env["flags"].values()), cls=f"hstrp.options_{len(env['options'])}")
